@@ -49,6 +49,12 @@ func c05Contents(maxRows int) [][][]any {
 			{int64(2147483647), int64(0), "b", true}, {int64(-2147483648), int64(9223372036854775807), "aB", false}, {int64(1), int64(1), "x", true}},
 		// strings that spell keywords, operators and punctuation
 		[][]any{{int64(1), int64(1), "or", true}, {int64(2), int64(2), "limit", false}, {int64(3), int64(3), "=", true}, {int64(4), int64(4), "true", false}, {int64(5), int64(5), "select", true}, {int64(6), int64(6), ",", false}})
+	// sixteen rows with ties on every column but b (sorting by several keys must be right beyond a dozen rows too)
+	var wide [][]any
+	for i := 0; i < 16; i++ {
+		wide = append(wide, []any{int64(1 + i%2), int64(100 - i*3), []string{"x", "y", "z"}[i%3], i%4 < 2})
+	}
+	out = append(out, wide)
 	return out
 }
 
